@@ -1295,7 +1295,13 @@ def rule_codeobject(ctx):
         if lf is None or any(w is None for w in want):
             r.info('descr field %s: initialiser %s or accumulated expression not linear over node attributes' % (field, node_src(e, 40)))
             continue
-        if all(lf != w for w in want):
+        def covered(small, big):
+            # every atom is a non-negative count: small <= big when big - small has no negative coefficient (a wider field stores the same value)
+            d = dict(big)
+            for k, v in small.items():
+                d[k] = d.get(k, 0) - v
+            return all(v >= 0 for v in d.values())
+        if not any(covered(lf, w) for w in want):
             def show(f):
                 return ' '.join('%+d*%s' % (v, k) for k, v in sorted(f.items())) or '0'
             r.violate('ExprNodes.CodeObjectNode.generate_codeobj:descr:%s' % field, EXN, gen.lineno,
